@@ -66,3 +66,24 @@ Print Assumptions C17_mvdr_sir_threshold_partial.
 
 Example C17_hypotheses_satisfiable : (0 <= 1)%R /\ (forall j, (j < 2)%nat -> (0 <= (fun _ : nat => 3) j)%R).
 Proof. split. lra. intros; lra. Qed.
+
+Definition e0 : vec := fun i => match i with O => 1 | _ => 0 end.
+Definition e1 : vec := fun i => match i with S O => 1 | _ => 0 end.
+Lemma C17_Ceq (a b : C) : fst a = fst b -> snd a = snd b -> a = b.
+Proof. destruct a, b; simpl; intros; subst; reflexivity. Qed.
+(* non-vacuity: D = 2, one interferer e1 of power 3, unit white noise, target e0: the solve contract, the non-zero
+   denominator and the zero-forcing competitor hypotheses of the three leakage theorems hold together *)
+Example C17_leakage_hypotheses_instance : 
+  (forall j, (j < 1)%nat -> (0 <= (fun _ : nat => 3) j)%R) /\ (0 <= 1)%R /\
+  (forall i, (i < 2)%nat -> mv 2 (noise_psd 1 (fun _ => 3%R) (fun _ => e1) 1) e0 i = e0 i) /\ dot 2 e0 e0 <> 0 /\
+  dot 2 e0 e0 = 1 /\ (forall j, (j < 1)%nat -> dot 2 e0 ((fun _ => e1) j) = 0).
+Proof.
+  split; [intros; lra|]. split; [lra|].
+  assert (Hd : dot 2 e0 e0 = 1). { unfold dot, e0; simpl. apply C17_Ceq; simpl; ring. }
+  split.
+  { intros i Hi. destruct i as [|[|i]]; [| |exfalso; inversion Hi as [|? H1]; inversion H1 as [|? H2]; inversion H2];
+    unfold mv, noise_psd, wpsd, scaled_id, e0, e1; simpl; apply C17_Ceq; simpl; ring. }
+  split. { rewrite Hd. intros E. apply (f_equal fst) in E. simpl in E. lra. }
+  split. { exact Hd. }
+  intros j Hj. unfold dot, e0, e1; simpl. apply C17_Ceq; simpl; ring.
+Qed.
